@@ -105,6 +105,18 @@ type Gate struct {
 	ch      chan struct{}
 	Waiting bool
 	opened  bool
+	name    string
+	ctl     *Controller
+}
+
+func (g *Gate) announce() {
+	g.Waiting = true
+	if g.ctl != nil {
+		select {
+		case g.ctl.wake <- struct{}{}:
+		default:
+		}
+	}
 }
 
 func NewGate() *Gate { return &Gate{ch: make(chan struct{})} }
@@ -112,14 +124,14 @@ func NewGate() *Gate { return &Gate{ch: make(chan struct{})} }
 // Wait parks until the gate is opened.
 func (g *Gate) Wait() {
 	Point()
-	g.Waiting = true
+	g.announce()
 	<-g.ch
 }
 
 // WaitOr parks until the gate is opened or done is closed; reports whether the gate opened.
 func (g *Gate) WaitOr(done <-chan struct{}) bool {
 	Point()
-	g.Waiting = true
+	g.announce()
 	select {
 	case <-g.ch:
 		return true
@@ -137,3 +149,63 @@ func (g *Gate) Open() {
 }
 
 func (g *Gate) Opened() bool { return g.opened }
+
+// Controller opens gates on behalf of a harness: whenever a handler parks on a
+// gate the controller waits until nothing else can run (idle priority) and then
+// opens one of the waiting gates, chosen by a free choice - so every completion
+// order of gated handlers is enumerated without drawing on the deviation budget.
+type Controller struct {
+	gates []*Gate
+	wake  chan struct{}
+	quit  chan struct{}
+}
+
+func NewController() *Controller {
+	c := &Controller{wake: make(chan struct{}, 64), quit: make(chan struct{})}
+	GoDaemon(c.loop)
+	return c
+}
+
+// Gate returns a new gate managed by the controller.
+func (c *Controller) Gate(name string) *Gate {
+	g := NewGate()
+	g.name = name
+	g.ctl = c
+	c.gates = append(c.gates, g)
+	return g
+}
+
+func (c *Controller) loop() {
+	for {
+		Point()
+		select {
+		case <-c.wake:
+		case <-c.quit:
+			return
+		}
+		WaitIdle()
+		var waiting []*Gate
+		for _, g := range c.gates {
+			if g.Waiting && !g.opened {
+				waiting = append(waiting, g)
+			}
+		}
+		if len(waiting) == 0 {
+			continue
+		}
+		k := 0
+		if len(waiting) > 1 {
+			k = Choose("gate-order", len(waiting), 0)
+		}
+		waiting[k].Open()
+	}
+}
+
+// Stop opens every gate and ends the controller.
+func (c *Controller) Stop() {
+	for _, g := range c.gates {
+		g.Open()
+	}
+	Point()
+	close(c.quit)
+}
